@@ -11,6 +11,7 @@ var stdAssumptions = []string{
 // expectedReach lists, per property, the reach counters that a healthy run of
 // the check should see above zero; those at zero are reported as blind spots.
 var expectedReach = map[string][]string{
+	"C10": {"parties=2", "parties=3", "parties=4", "parties=5", "circuit.compiled-for-GMW", "circuit.and-levels>3", "triples.checked-words", "cond.wakeup"},
 	"C05": {"program.generated", "program.corpus", "wires>65535"},
 	"C20": {"scenario.vole.Mul", "vole.multi-chunk", "vole.repeated-mul-on-one-instance"},
 	"C15": {"sender-aborted-on-tampering", "honest-accepted", "accepted-with-intact-correlation(unselected column or padding row or response-only)"},
@@ -22,6 +23,12 @@ var expectedReach = map[string][]string{
 }
 
 var props = map[string]propCfg{
+	"C10": {
+		Quick: 35 * time.Second, Thorough: 12 * time.Minute, Level: "exploration", DetSample: 8,
+		Rule:        "one case = one seeded GMW session of N in 2..5 parties on the simulated network: circuit generated (XOR/XNOR/AND/INV, 1..12-bit inputs, up to 300 gates, AND-heavy shapes with many levels and batch sizes not multiple of 64) or compiled from a small N-party MPCL program for the GMW target; inputs zero/ones/single-bit/random; a harness Pool.Get(n) with n in {1,63,64,65,100,127,129,1000,4095,4097} at every party before Run; start delays before Join, Connect and Run, dial latency, socket capacity, fragmentation, latency and every interleaving decision of the parties' main, accept, triple-producer and connection-writer tasks from the tape; oracle = truth-table evaluation and the triple relation on every bit; non-trivial = more than 4 task switches; distinct = distinct SHA-256 of the event log",
+		Components:  map[string]string{"gmw.Network/TriplePool/Peer, p2p.Conn, ot.CO, ot.IKNP SendBits/ReceiveBits": "real code (rewritten go/chan/sync/net/crypto-rand)", "TCP": "simulated (simnet)", "crypto/rand": "per-party seeded DRBG", "reference": "harness truth-table evaluator"},
+		Assumptions: stdAssumptions,
+	},
 	"C05": {
 		Quick: 30 * time.Second, Thorough: 12 * time.Minute, Level: "exploration",
 		Rule:        "one case = one seeded streaming session compiler.Stream vs circuit.StreamEvaluator over two p2p.Conn on a simulated pipe; program drawn from testsuite/lang + examples (1/4) or from the MPCL generator (typed straight-line/branching/loop programs over arithmetic, comparisons, constant shifts, casts, arrays, slices, array updates, copy, unsized main arguments instantiated from input sizes, declared-but-unassigned variables, aliasing chains; 1/12 of them with >65535 live wires); inputs zero/ones/random; OT in {CO, COT, COT-malicious}; capacity, fragmentation, latency, schedule from the tape; oracle differential: garbler == evaluator (values and output types) == whole compiled circuit evaluated by the harness truth-table evaluator; programs that do not compile or have unsupported argument types are discarded and counted; non-trivial = more than 2 task switches; distinct = distinct SHA-256 of the event log",
